@@ -48,6 +48,7 @@ type zzChainModel struct {
 	tsOf    map[[2]int32]int64
 	// broadcast behaviour (C20)
 	sendErr    error
+	sendFn     func(*wire.MsgTx) error // per-transaction answer (overrides sendErr)
 	sent       []*wire.MsgTx
 	notifyErr  error
 	notified   []btcutil.Address
@@ -130,7 +131,11 @@ func (c *zzChainModel) NotifyReceived(a []btcutil.Address) error {
 }
 func (c *zzChainModel) SendRawTransaction(tx *wire.MsgTx, _ bool) (*chainhash.Hash, error) {
 	c.sent = append(c.sent, tx)
-	if c.sendErr != nil {
+	if c.sendFn != nil {
+		if err := c.sendFn(tx); err != nil {
+			return nil, err
+		}
+	} else if c.sendErr != nil {
 		return nil, c.sendErr
 	}
 	h := tx.TxHash()
